@@ -136,7 +136,8 @@ class C13(object):
         real.reset_world()
         sig = repr((t, case.get("maxsize"), case.get("steps")))
         return {"violations": W.out[:3], "stats": {"events": len(W.log), "flushes": len(W.B.flushes), "probes": W.probes},
-                "sig": sig, "nontrivial": W.probes.get("hit", 0) >= 1 and W.probes.get("miss", 0) >= 1, "digest": sig}
+                "sig": sig, "nontrivial": W.probes.get("hit", 0) >= 1 and W.probes.get("miss", 0) >= 1,
+                "digest": sig + "|" + repr(W.log) + repr([f["tokens"] for f in W.B.flushes])}
 
     # ---- alru_cache ---------------------------------------------------------------------------
     def _judge_step(self, W, ref, calls, results, keyf, who_of, step_no):
